@@ -1,7 +1,7 @@
 //! C19 — dense matrix storage keeps rows aligned and contents intact across operations.
 //!
 //! case:   c19 <u8|u32|f32|i64> <C> <op>…       ops: new r | cap r c | resize n | fill v | cell i j v |
-//!                                               row i n v… | fromrows nr (n v…)… | itermut v (row k gets v + k%2 in column 0) | clone
+//!                                               row i n v… | fromrows nr (n v…)… | itermut v (row k gets v + k%2 in column 0) | itermutrev v (same through iter_mut().rev()) | clone
 //!         c19layout <C> <size> <align>          (the element type is chosen by size: 1,4,8)
 //! answer: after every op "<rows> <hash cells in iter() order> <hash cells in iter().rev() order>[ [cells]]"
 //!         (prefixed by "panic " when the call panicked), joined by " ; ";
@@ -113,6 +113,24 @@ fn oracle<T: Bits, C: ArrayLength + PartialEq>(m: &DenseMatrix<T, C>, want: &Vec
     if c != *m {
         return Err("clone differs from the original".into());
     }
+    // a matrix with the same logical cells built along a different path (different padding
+    // history) must be equal; one differing in a single logical cell must not be
+    let rows_t: Vec<Vec<T>> = want.iter().map(|r| r.iter().map(|&b| T::from_bits(b)).collect()).collect();
+    let mut other = DenseMatrix::<T, C>::new(want.len());
+    for (i, r) in rows_t.iter().enumerate() {
+        other[i].copy_from_slice(r);
+    }
+    if other != *m {
+        return Err("a matrix with the same logical cells compares unequal (padding visible to ==)".into());
+    }
+    if !want.is_empty() {
+        let (i, j) = (want.len() - 1, C::USIZE - 1);
+        let old = other[i][j];
+        other[i][j] = T::from_bits(old.bits() ^ 1);
+        if other[i][j].bits() != old.bits() && other == *m {
+            return Err("matrices differing in one logical cell compare equal".into());
+        }
+    }
     Ok(())
 }
 
@@ -220,6 +238,18 @@ fn run_ops<T: Bits, C: ArrayLength + PartialEq>(ops: &[&str]) -> (String, Result
                     row[0] = T::from_bits(v + (k % 2) as u64);
                 }
                 for (k, r) in want.iter_mut().enumerate() {
+                    r[0] = mask(v + (k % 2) as u64);
+                }
+                i += 2;
+            }
+            "itermutrev" => {
+                let v: u64 = ops[i + 1].parse().unwrap();
+                for (k, row) in m.iter_mut().rev().enumerate() {
+                    row[0] = T::from_bits(v + (k % 2) as u64);
+                }
+                let n = want.len();
+                for (k, r) in want.iter_mut().rev().enumerate() {
+                    let _ = n;
                     r[0] = mask(v + (k % 2) as u64);
                 }
                 i += 2;
@@ -364,7 +394,7 @@ pub fn generate(cfg: &Cfg) -> Vec<String> {
                         rows = nr;
                     }
                 }
-                10 => line.push_str(&format!(" itermut {}", rng.below(100))),
+                10 => line.push_str(&format!(" {} {}", if rng.chance(1, 2) { "itermut" } else { "itermutrev" }, rng.below(100))),
                 _ => line.push_str(" clone"),
             }
         }
